@@ -109,6 +109,10 @@ package graphql
 //@   entry ghost nNew = 0
 //@   call Subscribe ghost nSubscribe = nSubscribe + 1
 //@   call NewRerunner ghost nNew = nNew + 1
+//@   ghost validated bool
+//@   entry ghost validated = false
+//@   call PrepareQuery ghost validated = ret0 == nil
+//@   call NewRerunner assert validated                  // C18 / C14: nothing is executed unless validation accepted the query and its arguments
 //@   ensures old(in.ID in c.subscriptions) ==> err != nil
 //@   ensures old(len(c.subscriptions)+1 > c.maxSubscriptions) ==> err != nil
 //@   ensures err != nil ==> allKept(c.subscriptions) && nSubscribe == 0 && nNew == 0
@@ -124,6 +128,10 @@ package graphql
 //@   ghost nNew int
 //@   entry ghost nNew = 0
 //@   call NewRerunner ghost nNew = nNew + 1
+//@   ghost validated bool
+//@   entry ghost validated = false
+//@   call PrepareQuery ghost validated = ret0 == nil
+//@   call NewRerunner assert validated
 //@   ensures old(in.ID in c.subscriptions) ==> err != nil
 //@   ensures err != nil ==> allKept(c.subscriptions) && nNew == 0
 //@   ensures err == nil ==> nNew == 1 && (old(in.ID) in c.subscriptions) && othersKept(c.subscriptions, old(in.ID))
@@ -351,6 +359,11 @@ package graphql
 // ---- C19 consumers: a selection or fragment contributes only after ShouldIncludeNode approved its own directives.
 // (selections are merged by alias after the walk and the merged selection keeps at most the first occurrence's
 // directives, so an occurrence may only enter a group after its own directives approved it)
+// (also C14: when several occurrences of one alias are merged, the merged selection set takes the selections AND the
+// fragments of every occurrence - each occurrence's own)
+//@ func Flatten
+//@   call append#2 assert arg0 == merged.Selections && arg1 == selection.SelectionSet.Selections
+//@   call append#3 assert arg0 == merged.Fragments && arg1 == selection.SelectionSet.Fragments
 //@ func Flatten$1
 //@   ghost approved *Fragment
 //@   ghost approvedSel *Selection
@@ -659,6 +672,10 @@ package graphql
 // the very type it is then executed against
 //@ func httpHandler.ServeHTTP
 //@   call NewRerunner assume ret0 != nil          // NewRerunner returns the rerunner it allocated
+//@   ghost validated bool
+//@   entry ghost validated = false
+//@   call PrepareQuery ghost validated = ret0 == nil
+//@   call NewRerunner assert validated             // C18 / C14: a rejected request is answered with its error and nothing of it is executed
 //@   keeps httpHandler, Schema                 // decoding and parsing the request do not rewrite the handler or its schema
 //@   call PrepareQuery assert arg1 == schema && arg2 == query.SelectionSet && (query.Kind == "mutation" ==> schema == h.schema.Mutation) && (query.Kind != "mutation" ==> schema == h.schema.Query)
 //@ func httpHandler.ServeHTTP$2$1
